@@ -758,7 +758,18 @@ Fixpoint chk_steps (c : cfg) (st : state) (l : list (op * obs)) : bool :=
 Definition trace_case := (cfg * state * list (op * obs))%type.
 Definition chk_trace (t : trace_case) : bool := let '(c, st, l) := t in chk_steps c st l.
 (* diagnostics: the model's answers along a trace *)
-Definition diag_trace (t : trace_case) : list out := let '(c, st, l) := t in snd (run c st (List.map fst l)).
+Fixpoint diag_steps (c : cfg) (st : state) (i : nat) (l : list (op * obs)) : list (nat * (bool * bool * bool * bool) * out) :=
+  match l with
+  | [] => []
+  | (o, ob) :: r =>
+      let '(st', x) := step c st o in
+      let flags := (out_eqb x (o_out ob), delta_ok dict_eq (s_cdb st) (s_cdb st') (o_cdb ob),
+                    delta_ok str_eqb (s_rat st) (s_rat st') (o_rat ob), same_set (s_owners st') (o_owners ob)) in
+      let '(a, b, c0, d) := flags in
+      if a && b && c0 && d then diag_steps c st' (S i) r else [(i, flags, x)]
+  end.
+(* first failing step: (index, (answer ok, cdb delta ok, token delta ok, owners ok), the model's answer) *)
+Definition diag_trace (t : trace_case) := let '(c, st, l) := t in diag_steps c st O l.
 
 (* one cell of the redirect-URI matrix against the real Registration.verify_redirect_uris *)
 Definition ruri_eqb (a b : pystr * qdict) : bool := str_eqb (fst a) (fst b) && qdict_eqb (snd a) (snd b).
